@@ -190,6 +190,20 @@ impl Ctx {
         planner.map(|p| (pid, p))
     }
 
+    /// Planner constructors of different element types interleaved in one process: whether a SIMD planner accepts an element
+    /// type must not depend on which types were served before (process-wide state behind `FftPlanner::new`).
+    pub fn mixed_type_constructors(&mut self) {
+        let _ = self.new_planner::<f32>(Kind::Auto);
+        let _ = self.new_planner::<crate::types::Counting>(Kind::Auto);
+        let _ = self.new_planner::<f64>(Kind::Auto);
+        let _ = self.new_planner::<crate::types::Wide>(Kind::Auto);
+        let _ = self.new_planner::<crate::types::Counting>(Kind::Avx);
+        let _ = self.new_planner::<f32>(Kind::Avx);
+        let _ = self.new_planner::<crate::types::DD>(Kind::Sse);
+        let _ = self.new_planner::<f64>(Kind::Sse);
+        let _ = self.new_planner::<f32>(Kind::Auto);
+    }
+
     pub fn drop_planner<T: Elem>(&mut self, pid: u64, planner: AnyPlanner<T>) {
         drop(planner);
         self.tr.emit("DropPlanner", json!({ "pid": pid }));
@@ -207,7 +221,8 @@ impl Ctx {
                 }
                 VerifEvent::Build { desc, len, inverse, scratch } => self.tr.emit(
                     "Build",
-                    json!({"kind": desc, "len": len, "dir": if inverse {"I"} else {"F"}, "scr": scratch}),
+                    // "RadersBase(37)" -> kind RadersBase; the full text is kept in `desc`
+                    json!({"kind": desc.split(|c: char| c == '(' || c == ' ' || c == '{').next().unwrap_or(""), "desc": desc, "len": len, "dir": if inverse {"I"} else {"F"}, "scr": scratch}),
                 ),
                 VerifEvent::Enter { variant, chunk, len1, len2, scratch, required, depth } => self.tr.emit(
                     "Enter",
